@@ -113,7 +113,7 @@ func (m *C04) OnBlock(e *Env, blk *world.BlockRecord) {
 				e.Fail("C04", "invalid_round2_accepted", dm.Kind, "group %d: round-2 message with a wrong number of shares was accepted", mg.ID)
 				return
 			}
-			if dm.Kind == "r2_corrupt_share" || dm.Kind == "r2_share_for_other" {
+			if dm.Kind == "r2_corrupt_share" || dm.Kind == "r2_share_for_other" || dm.Kind == "r2_share_out_of_range" {
 				d := uint64(dm.R2.MemberID)
 				if mg.CorruptTo[d] == nil {
 					mg.CorruptTo[d] = map[uint64]bool{}
